@@ -356,7 +356,12 @@ def run(ctx):
         for i in cs:
             g = fl.guards(i)
             nonempty = has_fact(g, False, "file.empty()")
-            nodot = any(p is False and "file.at(0)" in k and ("46" in k or "'.'" in k) for k, p in g)
+            FIRST = r"(file\.at\(0\)|file\.front\(\)|file\[0\]|\*file\.begin\(\))"
+            nodot = any(isinstance(k, str) and p is False and re.search(FIRST, k) and ("46" in k or "'.'" in k) and " && " not in k for k, p in g)
+            if not nodot and nonempty:
+                # `!file.empty() && file.front() == '.'` known false while the name is known non-empty: the first character is not a dot
+                nodot = any(isinstance(k, str) and p is False and re.fullmatch(r"\(!file\.empty\(\) && \((%s == 46|46 == %s)\)\)" % (FIRST, FIRST), k) for k, p in g) or \
+                    any(isinstance(k, str) and p is False and re.fullmatch(r"\(file\.size\(\) && \((%s == 46|46 == %s)\)\)" % (FIRST, FIRST), k) for k, p in g)
             ctx.check(nonempty and nodot, "dot-files-ignored:" + short(f), "guarded_by", f.loc(i), "empty names and dot-files never reach the queue",
                       callee + " is reachable for a dot-file or an empty name", witness_path(f, fl, i))
             ctx.check(f.text(f.nodes[i]["args"][0]) == "file", "tag-is-file-name:" + short(f), "provenance", f.loc(i), "the drop-in tag is the file name", "tag is " + f.text(f.nodes[i]["args"][0]))
